@@ -129,14 +129,11 @@ fn pass0_internal(
                     }
                     let segments = macro_expand(line, macro_name, ops, context, macroses)?;
                     if !segments.is_empty() {
-                        // only address and type are needed: cloning the whole segment for every
-                        // macro call made expansion quadratic in the size of the program
-                        let (current_address, current_t) = {
-                            let current_segment = context.last_segment().unwrap();
-                            let current_segment = current_segment.borrow();
-                            (current_segment.address, current_segment.t)
-                        };
-                        if segments[0].address != current_address || segments[0].t != current_t {
+                        // only the type is needed: cloning the whole segment for every macro
+                        // call made expansion quadratic in the size of the program
+                        let current_t = context.last_segment().unwrap().borrow().t;
+                        // (an address means that the body started with an `.org`)
+                        if segments[0].address != 0 || segments[0].t != current_t {
                             context.add_segment(Segment {
                                 address: segments[0].address,
                                 t: segments[0].t,
@@ -175,15 +172,11 @@ fn macro_expand(
     macroses: &HashMap<String, Vec<(CodePoint, String)>>,
 ) -> Result<Vec<Segment>, Error> {
     // the body starts in the segment the call is written in
-    let (current_address, current_t) = {
-        let current_segment = context.last_segment().unwrap();
-        let current_segment = current_segment.borrow();
-        (current_segment.address, current_segment.t)
-    };
+    let current_t = context.last_segment().unwrap().borrow().t;
     let segments = Rc::new(RefCell::new(vec![Rc::new(RefCell::new(Segment {
         items: vec![],
         t: current_t,
-        address: current_address,
+        address: 0,
     }))]));
     if let Some(macro_body) = macroses.get(macro_name) {
         let macro_body = if !ops.is_empty() {
